@@ -43,6 +43,10 @@ func runC18(c *kernel.Ctx) {
 	if t.Chance(1, 3) {
 		mode = "mqtt"
 	}
+	stall := c.Params["campaign"] == "stall" || (c.Params["campaign"] == "" && t.Chance(1, 6))
+	if stall {
+		mode = "" // the stalled watcher watches a parent channel (prefix semantics)
+	}
 	cluster := c.Params["campaign"] != "nocluster"
 	if c.Params["campaign"] == "" && t.Chance(1, 4) {
 		cluster = false // the 'cluster' section is optional in the configuration
@@ -56,6 +60,10 @@ func runC18(c *kernel.Ctx) {
 	kNoP := world.Keygen(c, admin, lic.Master, "#/", "rw", 0)
 	admin.Send(mqttc.Disconnect())
 	world.Settle()
+	if stall {
+		runC18Stall(c, b, kP, kNoP)
+		return
+	}
 	var clients []*c18Client
 	nc := 0
 	attach := func() *c18Client {
@@ -371,4 +379,102 @@ func users(l []string) []string {
 		}
 	}
 	return o
+}
+
+
+// runC18Stall: a watcher that stops reading its socket (slow consumer) while
+// other connections make more transitions than the presence queue holds; once
+// it reads again every watcher must have been told about every transition.
+func runC18Stall(c *kernel.Ctx, b *world.Broker, kP, kNoP string) {
+	t := c.Tape
+	mk := func(name string) *mqttc.Client {
+		cl := b.Attach(name)
+		world.ConnectClient(c, cl, name, name, nil)
+		return cl
+	}
+	slow, healthy := mk("slow"), mk("healthy")
+	yes := true
+	for _, w := range []*mqttc.Client{slow, healthy} {
+		r, _ := world.Request(c, w, "presence", map[string]any{"key": kP, "channel": "a/", "status": false, "changes": &yes})
+		if r == nil || r.Status != 200 {
+			c.Harnessf("watcher setup: %+v", r)
+		}
+	}
+	nsub := t.Range(2, 3)
+	var subs []*mqttc.Client
+	for i := 0; i < nsub; i++ {
+		subs = append(subs, mk(fmt.Sprintf("s%d", i)))
+	}
+	// the slow watcher's socket buffer is tiny and it stops reading
+	slow.Conn.SetPeerWriteLimit(t.Range(64, 512))
+	n := t.Range(110, 160)
+	c.Logf("stall campaign: %d transitions, %d subscribers", n, nsub)
+	c.Fault("slow-consumer")
+	for i := 0; i < n; i++ {
+		s := subs[i%nsub]
+		s.Send(s.Subscribe(fmt.Sprintf("%s/a/n%d/", kNoP, i)))
+		world.Settle()
+		healthy.Recv()
+	}
+	// the watcher reads again, until nothing more arrives
+	got := map[string]int{}
+	hgot := map[string]int{}
+	for round := 0; round < 400; round++ {
+		pk, err := slow.Recv()
+		if err != nil {
+			c.Failf("notify-missing", "undecodable", "%v", err)
+		}
+		evs, _ := presenceEvents(pk)
+		for _, e := range evs {
+			got[e]++
+		}
+		world.Settle()
+		hp, _ := healthy.Recv()
+		hevs, _ := presenceEvents(hp)
+		for _, e := range hevs {
+			hgot[e]++
+		}
+		if len(pk) == 0 && len(hp) == 0 && round > 2 {
+			break
+		}
+	}
+	_ = hgot
+	// (the healthy watcher's earlier notifications were drained inside the loop above without counting:
+	// count what each watcher has seen in total through the slow one, which saw nothing before)
+	missing, dup := 0, 0
+	for i := 0; i < n; i++ {
+		k := fmt.Sprintf("subscribe a/n%d/ s%d", i, i%nsub)
+		switch got[k] {
+		case 1:
+		case 0:
+			missing++
+		default:
+			dup++
+		}
+	}
+	if missing > 0 {
+		c.Check("notify-missing", "slow-consumer", "a watcher that stopped reading for a while was never told about %d of %d subscriptions made meanwhile (it reads again now)", missing, n)
+	}
+	if dup > 0 {
+		c.Check("notify-extra", "slow-consumer", "%d notifications arrived twice at the slow watcher", dup)
+	}
+	// every subscriber must have been acknowledged in the end
+	for i, s := range subs {
+		pk, _ := s.Recv()
+		acks := 0
+		for _, x := range pk {
+			if _, ok := x.(*packets.SubackPacket); ok {
+				acks++
+			}
+		}
+		want := n / nsub
+		if i < n%nsub {
+			want++
+		}
+		if acks != want {
+			c.Check("notify-missing", "slow-consumer suback", "subscriber s%d got %d of %d SUBACKs after the slow watcher resumed", i, acks, want)
+		}
+	}
+	c.NonTrivial()
+	c.Probe("presence-queue-filled")
 }
